@@ -126,6 +126,14 @@ def run(ctx):
                 if writes and ok4:
                     ok4 = False
                     chk.violation("R11.4", "literal-node", "a literal node is modified by subs", loc(b["span"]))
+    # the rebuilt list is installed on every path (R11.2): a skipped re-indexing leaves stale indices in nested expressions
+    rets = [p for p in allp if p.status == "return"]
+    skipped = [p for p in rets if not any(e[0] == "call" and e[1].endswith("::reset_vars") for e in p.events)]
+    if rets and skipped:
+        conds = [(rel.cstr(d[1])[:80], d[2]) for d in skipped[0].decisions][-3:]
+        chk.violation("R11.2", "reset-skipped", "subs returns on %d of %d paths without re-indexing the variables with the rebuilt list (%s)" % (len(skipped), len(rets), conds), loc(b["span"]))
+    elif rets:
+        chk.ok("R11.2", "every return path re-indexes the variables", "%d paths" % len(rets), loc(b["span"]))
     if ok4 and all(seen4.values()):
         chk.ok("R11.4", "node transfer per kind", str(seen4), loc(b["span"]))
     elif ok4:
@@ -172,6 +180,9 @@ def run(ctx):
         else:
             chk.violation("R11.2", "missing-names:%s" % k, what, loc(b["span"]))
 
+    chk.rule("R11.5", "Calculate::subs has one implementation (the provided wrapper): no expression type overrides it")
+    from rules import c10 as _c10
+    _c10.no_overrides(chk, fb, "R11.5", "expression::calculate::Calculate", {"subs"}, "an own implementation bypasses the simultaneous substitution of DeepEx::subs decided by R11.1-R11.4")
     # ---- R11.3
     cs = fb.find_bodies(lambda x: x["kind"] == "AssocFn" and x.get("name") == "subs" and x.get("trait_default_of", "").endswith("calculate::Calculate"))
     if len(cs) != 1:
